@@ -24,7 +24,7 @@ from vlib import Check, run_tlc, tlc_must_pass, run_cases
 PROP = "C19"
 
 # (mode of MC_Fmt, quick stride, thorough stride): 1 = the whole universe, n = a seeded 1/n of it
-MODES = [("args", 1, 1), ("huge", 27, 4), ("extreme", 25, 1), ("main", 13, 1)]
+MODES = [("args", 1, 1), ("huge", 27, 4), ("extreme", 25, 2), ("main", 13, 1)]
 BATCH = 30000          # cases per harness batch (bounds memory in the thorough tier)
 
 
